@@ -1,0 +1,90 @@
+//go:build verif
+
+// Contracts for the Postgres backend: transaction hygiene (C13). The driver is
+// behind assumed typestate contracts (/verif/stubs/pgx.go) in which every call
+// may fail. Comments only; compiled only under the `verif` tag.
+
+package postgres
+
+// Between operations: the store holds a transaction exactly in explicit
+// multi-operation mode, the handle it holds is live, and no other transaction
+// it began is still open.
+//@ pred pgOk(pdb) = pdb != nil && db.baseOk(pdb.DbBase) && pdb.conn != nil
+//@   && (pdb.tx != nil ==> txLive(refOf(pdb.tx))) && count(txOpen) == ite(pdb.tx != nil, 1, 0)
+// outside explicit multi-operation mode no transaction is left open
+//@ pred settled(pdb) = !pdb.multi ==> pdb.tx == nil
+
+//@ func (*pgDb).start
+//@   serves C13
+//@   safety[C13]
+//@   requires pgOk(pdb) && ctx != nil
+//@   modifies pdb.tx, count(txOpen), txLive[ALL]
+//@   ensures @ok pgOk(pdb)
+//@   ensures @began result == nil ==> pdb.tx != nil
+//@   ensures @same old(pdb.tx) != nil ==> result == nil && pdb.tx == old(pdb.tx) && count(txOpen) == old(count(txOpen)) && all[int](t, txLive(t) == old(txLive(t)))
+//@   ensures @failed result != nil ==> pdb.tx == nil && old(pdb.tx) == nil
+
+//@ func (*pgDb).stopSingle
+//@   serves C13
+//@   safety[C13]
+//@   requires pgOk(pdb) && pdb.tx != nil
+//@   modifies pdb.tx, count(txOpen), txLive[refOf(pdb.tx)]
+//@   ensures @ok pgOk(pdb)
+//@   ensures @single !pdb.multi ==> pdb.tx == nil
+//@   ensures @multi pdb.multi ==> pdb.tx == old(pdb.tx) && result == nil
+
+//@ func (*pgDb).stop
+//@   serves C13
+//@   safety[C13]
+//@   requires pgOk(pdb)
+//@   modifies pdb.tx, count(txOpen), txLive[refOf(pdb.tx)]
+//@   ensures @ok pgOk(pdb) && pdb.tx == nil
+
+// Start / Stop / Abort: explicit multi-operation transactions.
+//@ func (*pgDb).Start
+//@   serves C13
+//@   safety[C13]
+//@   requires pgOk(pdb) && settled(pdb) && ctx != nil
+//@   modifies pdb.tx, pdb.multi, count(txOpen), txLive[ALL]
+//@   ensures[C13] @ok pgOk(pdb) && settled(pdb)
+//@   ensures[C13] @started result == nil ==> pdb.multi && pdb.tx != nil
+
+//@ func (*pgDb).Stop
+//@   serves C13
+//@   requires pgOk(pdb) && settled(pdb)
+//@   modifies pdb.tx, count(txOpen), txLive[refOf(pdb.tx)]
+//@   safety[C13]
+//@   ensures[C13] @ok pgOk(pdb) && settled(pdb)
+//@   ensures[C13] @ended old(pdb.multi) ==> pdb.tx == nil && count(txOpen) == 0
+// the multi-operation transaction is over: later single operations commit on their own again
+//@   ensures[C13] @single old(pdb.multi) && old(pdb.tx) != nil ==> !pdb.multi
+
+//@ func (*pgDb).Abort
+//@   serves C13
+//@   requires pgOk(pdb)
+//@   modifies pdb.tx, count(txOpen), txLive[refOf(pdb.tx)]
+//@   safety[C13]
+//@   ensures[C13] @ok pgOk(pdb) && pdb.tx == nil
+//@   ensures[C13] @settled old(settled(pdb)) ==> settled(pdb)
+//@   ensures[C13] @single old(pdb.multi) && old(pdb.tx) != nil ==> !pdb.multi
+
+// Put / Get: whatever the driver does, the store ends the operation settled:
+// a transaction begun for a single operation is ended exactly once.
+//@ func (*pgDb).Put
+//@   serves C13
+//@   safety[C13]
+//@   requires pgOk(pdb) && settled(pdb) && ctx != nil
+//@   premise !sameBacking(key, pdb.DbBase.baseDb.sid)
+//@   modifies pdb.tx, count(txOpen), txLive[ALL], pdb.DbBase.baseDb.sid[len(pdb.DbBase.baseDb.sid):cap(pdb.DbBase.baseDb.sid)], key[len(key):cap(key)]
+//@   ensures[C13] @ok pgOk(pdb)
+//@   ensures[C13] @settled settled(pdb)
+//@   ensures[C13] @multikept old(pdb.multi) && old(pdb.tx) != nil && result == nil ==> pdb.tx == old(pdb.tx) && count(txOpen) == 1
+
+//@ func (*pgDb).Get
+//@   serves C13
+//@   safety[C13]
+//@   requires pgOk(pdb) && settled(pdb) && ctx != nil
+//@   premise !sameBacking(key, pdb.DbBase.baseDb.sid)
+//@   modifies pdb.tx, count(txOpen), txLive[ALL], pdb.DbBase.baseDb.sid[len(pdb.DbBase.baseDb.sid):cap(pdb.DbBase.baseDb.sid)], key[len(key):cap(key)]
+//@   ensures[C13] @ok pgOk(pdb)
+//@   ensures[C13] @settled settled(pdb)
